@@ -14,7 +14,8 @@ Property theorems.  Sections:
   4. the dedicated linear solver (`Model/McLinear.lean`, QpBoxLinear): `linear_w_inv`,
      `linear_box_inv` along every schedule, `linear_step_gain_nonneg_partial`;
   5. configuration invariance in exact arithmetic: `mc_kkt_eps_near_optimal`,
-     `two_stopped_configurations_close`, `stopped_state_near_optimal`.
+     `two_stopped_configurations_close`, `stopped_state_near_optimal`, `mc_objective_recomputed`,
+     `perm_examples_equivariant`, `generated_Q_psd`.
 
 Models: `Model/McSparse.lean`, `Model/McSmo.lean`; helper lemmas: `Lemmas/McTables.lean`.
 Tie to the C++: translator T2 + correspondence K-C16 (checks/c16.py).
@@ -25,6 +26,7 @@ import SharkVerif.Lemmas.McLinear
 import SharkVerif.Lemmas.McOptimality
 import SharkVerif.Lemmas.McPerm
 import SharkVerif.Lemmas.McPsd
+import SharkVerif.Lemmas.McObjective
 namespace SharkVerif.C16
 open SharkVerif.Mc SharkVerif.Gen.McTables SharkVerif.McTables
 
@@ -298,6 +300,19 @@ theorem perm_examples_equivariant (f : Family) (c n : Nat) (hc : 2 ≤ c) (C : R
       = (problem f c n C K labels linMat).lin (liftPerm (f.P c) σ v) := by
   have hP : 0 < f.P c := by cases f <;> simp [Family.P] <;> omega
   exact perm_examples_equivariant_Q c (f.P c) n hP C _ K labels linMat σ v w
+
+/-- **mc_objective_recomputed**: what `functionValue()` returns, `½·⟨gradient + linear, alpha⟩`, IS the dual objective
+`lin·α − ½ αᵀQα` in every state with all variables active that satisfies `mc_grad_inv` (e.g. the state in which
+`QpSolver::solve` fills in `QpSolutionProperties::value`) -/
+theorem mc_objective_recomputed (s : McBox Rat) (h : FullInv s) (hall : s.activeVar = s.P * s.n) :
+    (1/2) * ∑ v ∈ Finset.range (s.P * s.n), (s.grad v + s.lin v) * s.alpha v
+      = dualObj (s.P * s.n) s.lin s.Q s.alpha := by
+  rw [← functionValue_eq_dualObj]
+  congr 1
+  apply Finset.sum_congr rfl
+  intro v hv
+  have hg := (gradInv_iff_dualGrad s).1 h.grad v (by rw [hall]; exact Finset.mem_range.1 hv)
+  rw [hg]
 
 /-- Gram matrices are positive semidefinite (the hypothesis `PSD` above is satisfiable by every kernel matrix of
 explicit features; for `Q = M ⊗ K` see `generated_Q_psd` below) -/
